@@ -1335,8 +1335,43 @@ func readRecordSet(ctx context.Context, reader RecordReader, fileSize int64) (Re
 	return recordSet, err
 }
 
+// lineBreakDetector passes a JSON text through and notes the first line break in it. A JSON
+// string cannot contain a raw line break (RFC 8259), so the first one that occurs is the line
+// break the file is written with.
+type lineBreakDetector struct {
+	reader   io.Reader
+	detected text.LineBreak
+	afterCR  bool
+}
+
+func (d *lineBreakDetector) Read(p []byte) (int, error) {
+	n, err := d.reader.Read(p)
+	for i := 0; i < n && d.detected == ""; i++ {
+		switch {
+		case d.afterCR && p[i] == '\n':
+			d.detected = text.CRLF
+		case d.afterCR:
+			d.detected = text.CR
+		case p[i] == '\n':
+			d.detected = text.LF
+		case p[i] == '\r':
+			d.afterCR = true
+		}
+	}
+	return n, err
+}
+
+// DetectedLineBreak returns "" when the text read so far contains no line break.
+func (d *lineBreakDetector) DetectedLineBreak() text.LineBreak {
+	if d.detected == "" && d.afterCR {
+		return text.CR
+	}
+	return d.detected
+}
+
 func loadViewFromJsonFile(fp *file.Reader, fileInfo *FileInfo, expr parser.QueryExpression) (*View, error) {
-	jsonText, err := io.ReadAll(fp)
+	detector := &lineBreakDetector{reader: fp}
+	jsonText, err := io.ReadAll(detector)
 	if err != nil {
 		return nil, NewIOError(expr, err.Error())
 	}
@@ -1353,6 +1388,9 @@ func loadViewFromJsonFile(fp *file.Reader, fileInfo *FileInfo, expr parser.Query
 
 	fileInfo.Encoding = text.UTF8
 	fileInfo.JsonEscape = escapeType
+	if lineBreak := detector.DetectedLineBreak(); lineBreak != "" {
+		fileInfo.LineBreak = lineBreak
+	}
 
 	view := NewView()
 	view.Header = NewHeader(FormatTableName(fileInfo.Path), headerLabels)
@@ -1379,7 +1417,8 @@ func loadViewFromJsonLinesFile(ctx context.Context, flags *option.Flags, fp *fil
 	var pos int64
 	var buildErr, readErr error
 
-	reader := jsonl.NewReader(fp)
+	detector := &lineBreakDetector{reader: fp}
+	reader := jsonl.NewReader(detector)
 	reader.SetUseInteger(false)
 
 	wg := sync.WaitGroup{}
@@ -1523,6 +1562,9 @@ func loadViewFromJsonLinesFile(ctx context.Context, flags *option.Flags, fp *fil
 
 	fileInfo.Encoding = text.UTF8
 	fileInfo.JsonEscape = escapeType
+	if lineBreak := detector.DetectedLineBreak(); lineBreak != "" {
+		fileInfo.LineBreak = lineBreak
+	}
 
 	view := NewView()
 	view.Header = NewHeader(FormatTableName(fileInfo.Path), headerList)
